@@ -4,12 +4,18 @@ import (
 	"errors"
 	"math/rand"
 	"strings"
+	"sync"
 	"time"
 )
 
 const letters = "abcdefghijklmnopqrstuvwxyzABCDEFGHIJKLMNOPQRSTUVWXYZ0123456789_-"
 
-var randSource = rand.New(rand.NewSource(time.Now().UnixNano()))
+// randSource is shared by everything that renders random strings (all instances of all pools);
+// *rand.Rand is not safe for concurrent use, randMx guards it.
+var (
+	randMx     sync.Mutex
+	randSource = rand.New(rand.NewSource(time.Now().UnixNano()))
+)
 
 func ParseStringFunc(shoot string) (string, []string, error) {
 	openIdx := strings.IndexRune(shoot, '(')
@@ -41,6 +47,8 @@ func RandStringRunes(n int64, s string) string {
 	}
 	var letterRunes = []rune(s)
 	b := make([]rune, n)
+	randMx.Lock()
+	defer randMx.Unlock()
 	for i := range b {
 		b[i] = letterRunes[randSource.Intn(len(letterRunes))]
 	}
